@@ -96,8 +96,18 @@ def _check(ctx: Ctx) -> None:
     ctx.analysed(fi)
     seqs = fi.params[1]
     outer = next((n for n in fi.node.body if isinstance(n, ast.For) and isinstance(n.iter, ast.Name) and n.iter.id == seqs), None)
+    # whatever the shape of the loops: the canonical re-sort is reached on every call (a fast path that inserts by time only and returns
+    # leaves simultaneous events in arrival order -- the merge order shows in the result)
+    from ..astutil import early_exits_before
+    sorts = [st_ for st_ in fi.node.body if isinstance(st_, ast.Expr) and isinstance(st_.value, ast.Call) and attr_chain(st_.value.func) in (["self", "sort"], ["self", "normalise_absolute"])]
+    if sorts:
+        ex = [x for x in early_exits_before(fi.node, sorts[-1]) if isinstance(x, ast.Return)]
+        ctx.check(not ex, "ALL", f"{q}: the canonical re-sort is reached on every call", function=q, construct="merge can return before the canonical re-sort",
+                  message=f"`{short(ex[0]._parent if ex and hasattr(ex[0], '_parent') else None, 80)}`: on that path the merged events keep their arrival order at equal ticks",
+                  file=fi.file, node=ex[0] if ex else fi.node)
     if outer is None:
-        raise AnalysisError(f"{q}: loop over the input sequences not found")
+        ctx.floor(f"{q}: loop over the input sequences", 0, 1)
+        return
     inner = next((n for n in ast.walk(outer) if isinstance(n, ast.For) and n is not outer), None)
     if inner is None or not isinstance(inner.target, ast.Name):
         raise AnalysisError(f"{q}: loop over the messages of an input not found")
